@@ -881,6 +881,11 @@ func (e *Engine) box(v Value) string {
 			e.declared[k] = true
 			e.assumes = append(e.assumes, eq(sx(un, sx(fn, v.T)), v.T))
 			e.assumes = append(e.assumes, sx("<=", "0", sx(fn, v.T))) // interface payload ids are non-negative (modelling convention)
+			if _, isPtr := types.Unalias(t).Underlying().(*types.Pointer); isPtr && e.c != nil && e.c.Opts["typednil"] != "" {
+				// typedNil(box(p)) holds exactly when p is nil
+				e.declareFun("tnil", []string{"Ifc"}, "Bool")
+				e.assumes = append(e.assumes, eq(sx("tnil", sx("mk-ifc", fmt.Sprint(e.tid(t)), sx(fn, v.T))), eq(v.T, e.izero())))
+			}
 		}
 	}
 	return sx("mk-ifc", fmt.Sprint(e.tid(t)), sx(fn, v.T))
